@@ -125,10 +125,6 @@ def run(case):
         return out
     feats0 = case.get("feats", [])
     # (urljoin, which the RDF/XML parser resolves with, drops an empty query, empty parameters and empty path segments)
-    empty_q = any(x[0] == "u" and (re.search(r"[?;](#|\Z)", x[1]) or re.search(r"^[A-Za-z][A-Za-z0-9+.-]*://[^/?#]*/[^?#]*//", x[1]) or
-                                   re.search(r"^[A-Za-z][A-Za-z0-9+.-]*://[^/?#]*//", x[1])) for t in triples for x in t)
-    if K.skip("C03-rdfxml-empty-query", fmt in ("xml", "pretty-xml") and bool(case.get("base")) and empty_q, out):
-        return out
     if K.skip("C03-jsonld-odd-lists", fmt == "json-ld" and any(f.startswith("list:") and f not in ("list:ok", "list:nested", "list:bnode-members") for f in feats0), out):
         return out
     kw = {}
